@@ -129,6 +129,8 @@ structure SInvB (gh : Ghost) (st : St) (pending : List Nat) : Prop where
 structure SInvG (gh : Ghost) (st : St) (pending : List Nat) : Prop extends SInvB gh st pending where
   wref : ∀ (i : Nat) (w : Win), LiveW st.tree i w → w.refcount ≤ ((getX st i).appRefs : Int) + (gh.win i : Int) ∧
     (i = 0 → ((getX st i).appRefs : Int) + (gh.win i : Int) ≤ w.refcount)
+  /-- a root window the library itself holds a reference to is alive -/
+  glive : 0 < gh.win 0 → ∃ r, LiveW st.tree 0 r
 
 /-- The state invariant between two operations. -/
 abbrev SInv (gh : Ghost) (st : St) : Prop := SInvG gh st []
@@ -570,7 +572,8 @@ theorem unrefT_ok {cfg : Cfg} (R : Repaired cfg) {st : St} (inv : SInvB gh st []
       dropped.Nodup ∧
       (∀ (i : Nat) (w' : Win), LiveW t' i w' → ∃ w, LiveW st.tree i w ∧
         w'.refcount + (if i = x then 1 else 0) + (if i ∈ dropped then 1 else 0) ≤ w.refcount) ∧
-      (∀ (w w' : Win), LiveW st.tree 0 w → LiveW t' 0 w' → w.refcount ≤ w'.refcount + (if x = 0 then 1 else 0)) := by
+      (∀ (w w' : Win), LiveW st.tree 0 w → LiveW t' 0 w' → w.refcount ≤ w'.refcount + (if x = 0 then 1 else 0)) ∧
+      (∀ (w : Win), LiveW st.tree 0 w → (x ≠ 0 ∨ 2 ≤ w.refcount) → ∃ w', LiveW t' 0 w') := by
   have hr1 := inv.rc x xw hl
   obtain ⟨inv0, _⟩ := inv.tinv.set_refcount hl (xw.refcount - 1)
   have hl0 : LiveW (WinTree.set st.tree x { xw with refcount := xw.refcount - 1 }) x { xw with refcount := xw.refcount - 1 } :=
@@ -622,8 +625,8 @@ theorem unrefT_ok {cfg : Cfg} (R : Repaired cfg) {st : St} (inv : SInvB gh st []
         by_cases h0 : (0 : Nat) = x
         · subst h0; exact ⟨_, hl0⟩
         · exact ⟨r, by rw [set_get_ne _ (Ne.symm h0)]; exact hr.1, hr.2⟩
-    refine ⟨?_, hsz, fun i w hw hf => by obtain ⟨w', hw', h1, _⟩ := evs i w hw; exact ⟨w', hw', h1 hf⟩, C.drop.1, ?_, ?_⟩
-    rotate_right
+    refine ⟨?_, hsz, fun i w hw hf => by obtain ⟨w', hw', h1, _⟩ := evs i w hw; exact ⟨w', hw', h1 hf⟩, C.drop.1, ?_, ?_, ?_⟩
+    rotate_right 2
     · -- the root window is no child: nobody takes a reference from it
       intro w w' hlw hlw'
       obtain ⟨w'', hw'', _, h3⟩ := evs 0 w hlw.1
@@ -638,6 +641,20 @@ theorem unrefT_ok {cfg : Cfg} (R : Repaired cfg) {st : St} (inv : SInvB gh st []
       rcases C.below 0 w hxpos ht0 with ⟨_, h⟩ | ⟨_, h⟩
       · rw [hlw'.1] at h; cases h; omega
       · rw [hlw'.1] at h; cases h; show w.refcount ≤ (unlinkedParent w x).refcount + 0; simp [unlinkedParent]
+    · -- the root window is not below `x`: it stays
+      intro w hlw hcase
+      have hx0 : x ≠ 0 := by
+        rcases hcase with h | h
+        · exact h
+        · intro e; subst e
+          have := LiveW.unique hlw hl; subst this
+          omega
+      have hxpos : 0 < x := Nat.pos_of_ne_zero hx0
+      have ht0 : (WinTree.set st.tree x { xw with refcount := 0 }).wins[0]? = some w := by
+        rw [set_get_ne _ hx0]; exact hlw.1
+      rcases C.below 0 w hxpos ht0 with ⟨_, h⟩ | ⟨_, h⟩
+      · exact ⟨w, h, hlw.2⟩
+      · exact ⟨_, h, hlw.2⟩
     refine ⟨C.inv, by simp only; rw [hsz]; exact inv.wx_size, ?_, C.dead.1, ?_, ?_, ?_, ?_, ?_, ?_, inv.simple⟩
     · intro i w hli
       cases h0 : st.tree.wins[i]? with
@@ -718,8 +735,8 @@ theorem unrefT_ok {cfg : Cfg} (R : Repaired cfg) {st : St} (inv : SInvB gh st []
         · simp only [hd', if_false]
           rcases e.2.2.1 hli.2 with h | ⟨h, _, _⟩ <;> omega
   · simp only [hz, if_false, pure_ok]
-    refine ⟨_, [], [], rfl, ?_, by simp only [set_size], ?_, List.nodup_nil, ?_, ?_⟩
-    rotate_right
+    refine ⟨_, [], [], rfl, ?_, by simp only [set_size], ?_, List.nodup_nil, ?_, ?_, ?_⟩
+    rotate_right 2
     · intro w w' hlw hlw'
       by_cases h0x : x = 0
       · subst h0x
@@ -731,6 +748,10 @@ theorem unrefT_ok {cfg : Cfg} (R : Repaired cfg) {st : St} (inv : SInvB gh st []
       · have : LiveW st.tree 0 w' := ⟨by rw [← set_get_ne _ h0x]; exact hlw'.1, hlw'.2⟩
         have := LiveW.unique hlw this; subst this
         simp only [h0x, if_false]; omega
+    · intro w hlw _
+      by_cases h0x : x = 0
+      · subst h0x; exact ⟨_, hl0⟩
+      · exact ⟨w, by rw [set_get_ne _ h0x]; exact hlw.1, hlw.2⟩
     rotate_left
     · intro i w hw hf
       by_cases hix : i = x
@@ -823,7 +844,7 @@ theorem unrefW_ok {cfg : Cfg} (R : Repaired cfg) {st : St} (inv : SInv gh st) {x
   have hxlt : x < st.wx.size := by rw [inv.wx_size]; exact hl.lt
   have inv0 : SInvB gh (setX st x { getX st x with appRefs := (getX st x).appRefs - 1 }) [] :=
     inv.toSInvB.of_wx rfl rfl rfl rfl rfl (setX_map_pen _ rfl)
-  obtain ⟨t', dead, dropped, ht, invG, hsz, hfr, hnd, hcnt, hrootc⟩ := unrefT_ok R inv0 (x := x) (xw := xw) hl
+  obtain ⟨t', dead, dropped, ht, invG, hsz, hfr, hnd, hcnt, hrootc, hrootl⟩ := unrefT_ok R inv0 (x := x) (xw := xw) hl
   have hf := consume_frame dropped { (setX st x { getX st x with appRefs := (getX st x).appRefs - 1 }) with tree := t' }
   have invC : SInvB gh (consume { (setX st x { getX st x with appRefs := (getX st x).appRefs - 1 }) with tree := t' } dropped) dead :=
     invG.of_wx hf.1 hf.2.1 hf.2.2.1 hf.2.2.2.1 hf.2.2.2.2.1 (consume_map_pen dropped _)
@@ -844,7 +865,22 @@ theorem unrefW_ok {cfg : Cfg} (R : Repaired cfg) {st : St} (inv : SInv gh st) {x
       omega
     · simp only [hxj, false_and, if_false] at hc ⊢
       omega
-  refine ⟨st2, ?_, ⟨inv2, ?_⟩, by rw [htree]; exact hsz, ?_, ?_⟩
+  have hgl : 0 < gh.win 0 → ∃ r, LiveW st2.tree 0 r := by
+    -- a root window the library holds survives the application's unref
+    intro hg
+    rw [htree]
+    obtain ⟨r, hr⟩ := inv.glive hg
+    refine hrootl r hr ?_
+    by_cases hx0 : x = 0
+    · right
+      subst hx0
+      have := LiveW.unique hr hl; subst this
+      have h2 := (inv.wref 0 r hr).2 rfl
+      have : (1 : Int) ≤ ((getX st 0).appRefs : Int) := by exact_mod_cast hpos
+      have : (1 : Int) ≤ (gh.win 0 : Int) := by exact_mod_cast hg
+      omega
+    · exact .inl hx0
+  refine ⟨st2, ?_, ⟨inv2, ?_, hgl⟩, by rw [htree]; exact hsz, ?_, ?_⟩
   · unfold unrefW
     simp only [setX_tree] at ht
     simp only [setX_tree, ht, bind_ok]
